@@ -2,7 +2,8 @@
 """C16 - references to embedded sub-documents resolve to where they are stored.
 
 proof:          lean/OdfModel/Props/C16.lean (ref_names_folder_partial, reload_keeps_refs_partial, finding_*)
-                lean/OdfModel/Props/C16Names.lean (objectName_free, setFolderKids_folder, descending_then_default, path_name_inside_out)
+                lean/OdfModel/Props/C16Names.lean (objectName_free, attach_folder_fresh, setFolderKids_folder, descending_then_default, path_name_inside_out,
+                path_name_equals_nested_folder_refused, finding_later_attach_shares_folder)
                 about lean/OdfModel/Pkg.lean (`step`/`run` = addObject, `save`, `load`)
 correspondence: (A) attachment histories (2-7 documents, default and explicit names, nesting, any attach order, objects
                 with pictures) run on the real library and through `drv_pkg hist`: returned references, the saved
@@ -246,31 +247,55 @@ def run_hist(chk, drv, h, oracle_only=False):
         if twice:
             chk.count('outside_model_attached_twice')
             return fails, refs, arch
-        # PENDING (found on the unchanged tree in round 7, reported to the integrator): an explicit name that is a path can be equal
-        # to the folder of an object nested in a sibling ("Object 1/Object 1" given to the saved document whose "Object 1" holds an
-        # "Object 1" of its own): addObject only compares with the names of the direct objects, two sub-documents end up in one
-        # folder.  Decidable class, computed from the calls and the returned references alone: two attached documents whose
-        # folders (holder's folder + own name; own name = the explicit name without leading "/", else the last component of the
-        # reference) are equal, one of the own names containing "/".  Counted, not failed, until the integrator decides.
+        # Two sub-documents in one folder.  An explicit name that is a path can be equal to the folder of an object nested in a sibling
+        # ("Object 1/Object 1" given to the saved document whose "Object 1" holds an "Object 1" of its own).  Computed from the calls and
+        # the returned references alone: the folder of a document = holder's folder + own name (own name = the explicit name without
+        # leading "/", else the last component of the reference); class = two attached documents with equal folders, one of the own
+        # names containing "/".
+        #   (a) `path-name-equals-folder-of-nested-object` (was KF-C16-3, repaired: addObject compares the name with the folder of
+        #       every object below the holder and raises ValueError - a refused call here as in the model): at the time of an ACCEPTED
+        #       call the own name was already the folder, read below the holder, of an object below the holder.  An ordinary failing
+        #       signature: the repaired code never produces it.
+        #   (b) `object-attached-into-folder-of-path-named-object` (KF-C16-10, what that repair leaves): the two folders became equal
+        #       through a call whose holder could not see the other document - an object attached to a holder DEEPER than the one holding
+        #       the path-named object, or a document attached together with objects of its own.
+        # The oracle's other reports about such a history are consequences of the two documents sharing one folder.
         own, hold = {}, {}
+        seen_by_holder = []
         for (p, c, name), r in zip(h['ops'], refs):
-            if r is not None:
-                own[c] = name.lstrip(u'/') if name is not None else r.rsplit(u'/', 1)[1]
-                hold[c] = p
+            if r is None:
+                continue
+            n_ = name.lstrip(u'/') if name is not None else r.rsplit(u'/', 1)[1]
+            def below(z):                   # folder of z read below p, if z hangs (so far) below p
+                parts = []
+                while z != p:
+                    if z not in hold:
+                        return None
+                    parts.append(own[z]); z = hold[z]
+                return u'/'.join(reversed(parts))
+            taken = sorted(z for z in own if below(z) == n_)
+            if taken:
+                seen_by_holder.append((p, c, name, taken))
+            own[c] = n_
+            hold[c] = p
         def folder_of(c):
             return u'' if c == 0 else folder_of(hold[c]) + own[c] + u'/'
         at = {}
         for c in sorted(own):
             if reachable(c):
                 at.setdefault(folder_of(c), []).append(c)
-        if any(len(v) > 1 and any(u'/' in own[c] for c in v) for v in at.values()):
-            # a genuine defect of the unchanged tree, recorded as KF-C16-3: reported under its own signature (the oracle's other
-            # reports about such a history are consequences of the two documents sharing one folder)
-            chk.count('known_path_name_equals_folder_of_nested_object')
-            chk.count('known_path_name_equals_folder_of_nested_object_oracle_reports', len(fails))
-            shared = sorted(f for f, v in at.items() if len(v) > 1)
+        if seen_by_holder:
+            chk.count('accepted_name_that_is_the_folder_of_an_object_below_the_holder')
             return [('path-name-equals-folder-of-nested-object',
-                     'addObject accepted an explicit path name that is the folder of an object nested in a sibling: %s hold two documents each' % shared)], refs, arch
+                     'addObject(%d <- %d, %r) accepted a name that is the folder of document(s) %r below the holder' % seen_by_holder[0])], refs, arch
+        if any(len(v) > 1 and any(u'/' in own[c] for c in v) for v in at.values()):
+            chk.count('known_object_attached_into_folder_of_path_named_object')
+            chk.count('known_object_attached_into_folder_of_path_named_object_oracle_reports', len(fails))
+            shared = sorted(f for f, v in at.items() if len(v) > 1)
+            return [('object-attached-into-folder-of-path-named-object',
+                     'two documents each are stored in %s: an object was attached (or moved with its holder) into the folder an explicit path name '
+                     'had given to another object, which the holder of the call does not see' % shared)], refs, arch
+        chk.count('names_compared_with_every_folder_below_the_holder', len(own))
         # ---- oracle: a reference handed out while the holder was not yet part of the saved document (the holder, or a document
         # the holder hangs in, was attached afterwards) was returned for the package whose root was the top of the holder's tree at
         # that time.  That document is stored in exactly one folder T of the saved package (found by its marker): the reference,
@@ -597,6 +622,14 @@ FIXED = [
     {'mode': 'pkg', 'nums': [10, 2, 11, 1, 12, 3, 9, 4, 8, 5, 7, 6], 'objects': many_objects([10, 2, 11, 1, 12, 3, 9, 4, 8, 5, 7, 6]),
      'root_first': False, 'extras': False},
     {'mode': 'pkg', 'nums': [2, 1], 'objects': many_objects([2, 1]), 'root_first': True, 'extras': False},
+    # (was KF-C16-3) a path name equal to the folder of an object nested in a sibling: refused (ValueError); "Object 1/x" is accepted
+    {'mode': 'hist', 'docs': [{'kind': 'text', 'settings': False, 'pics': []}] * 5,
+     'ops': [[1, 3, None], [0, 1, None], [0, 2, u'Object 1/Object 1'], [0, 2, u'/Object 1/Object 1'], [0, 2, u'Object 1/x'], [0, 4, u'Object 1/x']]},
+    {'mode': 'hist', 'docs': [{'kind': 'text', 'settings': False, 'pics': []}] * 5,
+     'ops': [[0, 1, None], [1, 2, u'a/b'], [2, 3, u'c'], [0, 4, u'Object 1/a/b/c'], [1, 4, u'a/b/c'], [1, 4, u'a/b'], [1, 4, u'a']]},
+    # KF-C16-10: the holder of the third call is deeper than the holder of the path-named object and cannot see it
+    {'mode': 'hist', 'docs': [{'kind': 'text', 'settings': False, 'pics': []}] * 4,
+     'ops': [[0, 1, None], [0, 2, u'Object 1/Object 1'], [1, 3, None]]},
     # ordered, three levels, pictures in the objects
     {'mode': 'hist', 'docs': [{'kind': 'text', 'settings': True, 'pics': []},
                               {'kind': 'text', 'settings': False, 'pics': [{'how': 'string', 'data': '0102', 'mt': u'image/png'}]},
